@@ -860,7 +860,7 @@ impl Sim {
 
     /// the ballast's own collections are audited too: a corrupted heap ends the run at once
     fn ballast_audit(&mut self) -> bool {
-        let report = audit(&self.vm);
+        let report = crate::audit::audit_with(&self.vm, true);
         let dangerous = report.findings.iter().any(|f| matches!(f.invariant, "I1" | "I3" | "I4"));
         if !report.findings.is_empty() {
             let mut c = self.ctl.borrow_mut();
